@@ -14,10 +14,11 @@ VARIABLES routes,  \* set of [p, face, origin, cost, flags]
           st,      \* strategy choices: prefix -> strategy name
           cap,     \* CS capacity
           faces,   \* face id -> mtu   (faces that exist)
+          fprop,   \* face id -> [pers, lf, cm]: persistency, local fields enabled, congestion marking enabled (faces/update changes them)
           fattr,   \* face id -> [scope, schemes, uri, luri]: what a faces/query filter is matched against (fixed when the face is made)
           lh,      \* configuration: management also listens under /localhop/nfd
           ev
-vars == <<routes, nh, st, cap, faces, fattr, lh, ev>>
+vars == <<routes, nh, st, cap, faces, fprop, fattr, lh, ev>>
 Empty == [x \in {} |-> 0]
 Ext(fn, k, v) == [x \in DOMAIN fn \cup {k} |-> IF x = k THEN v ELSE fn[x]]
 Drop(fn, K)   == [x \in DOMAIN fn \ K |-> fn[x]]
@@ -26,6 +27,8 @@ Drop(fn, K)   == [x \in DOMAIN fn \ K |-> fn[x]]
 \*   mod, verb, hasParams, hasName, name, faceId (-1 absent), cost, origin, flags (-1 absent),
 \*   flagsMask \in {"none", "both", "flags", "mask"} (faces/update), verb = "" for a name too short to carry a verb
 \*   strat \in {"", "ok", "bare", "unknown", "badver", "alien", "empty"}, stratName, capacity (-1 absent; -2: not representable), mtu (-1 absent)
+\*   pers (faces/update: FacePersistency, -1 absent), fl / mk (faces/update with flagsMask = "both": the Flags and Mask values; bit 1 = local
+\*   fields, bit 4 = congestion marking)
 \*   exp (rib/register: ExpirationPeriod in ms, -1 absent)
 \*   create (faces/create): "" for other verbs, else the class of the request: "nouri" (no Uri), "smallmtu" (an MTU that cannot carry a packet),
 \*     "baduri" (a Uri that cannot be canonized), "flagsonly" (Flags without Mask), "conflict" (the remote Uri of an existing face),
@@ -39,6 +42,10 @@ Known(c) == \/ (c.mod = "rib" /\ c.verb \in {"register", "unregister"})
             \/ (c.mod = "strategy-choice" /\ c.verb \in {"set", "unset"})
             \/ (c.mod = "cs" /\ c.verb = "config")
             \/ (c.mod = "faces" /\ c.verb \in {"update", "destroy", "create"})
+\* persistent = 0, on-demand = 1, permanent = 2: a UDP face is persistent or permanent, a Unix-socket face persistent, others anything
+PersOK(f, p) == IF "udp4" \in fattr[f].schemes \/ "udp6" \in fattr[f].schemes THEN p \in {0, 2}
+                ELSE IF "unix" \in fattr[f].schemes THEN p = 0 ELSE TRUE
+Bit(x, b) == (x \div b) % 2 = 1
 \* parameters that are missing, malformed or out of range: must be answered 4xx and change nothing
 Malformed(c) ==
   \/ ~c.hasParams
@@ -49,10 +56,12 @@ Malformed(c) ==
   \/ (c.mod = "cs" /\ c.capacity = -2)
   \/ (c.mod = "cs" /\ c.flagsMask \in {"flags", "mask"})                                  \* likewise for cs/config
   \/ (c.mod = "faces" /\ c.verb = "update" /\ EffFace(c) \notin DOMAIN faces)
+  \/ (c.mod = "faces" /\ c.verb = "update" /\ c.pers >= 0 /\ EffFace(c) \in DOMAIN fattr /\ ~PersOK(EffFace(c), c.pers))   \* a persistency that kind of face cannot have
   \/ (c.mod = "faces" /\ c.verb = "update" /\ c.mtu >= 0 /\ c.mtu < 1)          \* an MTU that cannot carry any fragment
   \/ (c.mod = "faces" /\ c.verb = "update" /\ c.flagsMask \in {"flags", "mask"})      \* Flags and Mask come together or not at all
   \/ (c.mod = "faces" /\ c.verb = "create" /\ c.create # "ok")                    \* every refusal class of faces/create
   \/ (c.mod = "faces" /\ c.verb = "destroy" /\ c.faceId < 0)                    \* destroy names its face explicitly (one that is gone already is fine)
+\* (PersOK is defined above Malformed)
 \* an MTU between 1 and MinMtu-1 may be refused or accepted (DESIGN 4.0); MinMtu and above must be accepted
 MayRefuse(c) == c.mod = "faces" /\ c.verb = "update" /\ c.mtu >= 1 /\ c.mtu < MinMtu
 Accepts(c) == Authorised(c) /\ Known(c) /\ ~Malformed(c)
@@ -86,6 +95,12 @@ Command(c, accepted) ==
   /\ ev' = [c |-> c, accepted |-> accepted] /\ lh' = lh
   /\ IF accepted THEN Apply(c) ELSE UNCHANGED <<routes, nh, st, cap, faces>>
   /\ fattr' = [f \in DOMAIN fattr \cap DOMAIN faces' |-> fattr[f]]
+  /\ fprop' = [f \in DOMAIN fprop \cap DOMAIN faces' |->
+                 IF accepted /\ c.mod = "faces" /\ c.verb = "update" /\ f = EffFace(c)
+                 THEN [pers |-> IF c.pers >= 0 THEN c.pers ELSE fprop[f].pers,
+                       lf   |-> IF c.flagsMask = "both" /\ Bit(c.mk, 1) THEN Bit(c.fl, 1) ELSE fprop[f].lf,
+                       cm   |-> IF c.flagsMask = "both" /\ Bit(c.mk, 4) THEN Bit(c.fl, 4) ELSE fprop[f].cm]
+                 ELSE fprop[f]]
 \* ---- C17 rules on the observed response (o.status) ------------------------------------------------
 StatusOK(c, status) ==
   /\ status # "CRASH"
@@ -97,7 +112,7 @@ StatusOK(c, status) ==
 \* the model's decision when the statement leaves no choice
 MustAccept(c) == Accepts(c) /\ ~MayRefuse(c)
 \* authorisation invariant: state changes only through authorised commands
-P_C17auth == [][(routes' # routes \/ nh' # nh \/ st' # st \/ cap' # cap \/ faces' # faces) => Authorised(ev'.c)]_vars
+P_C17auth == [][(routes' # routes \/ nh' # nh \/ st' # st \/ cap' # cap \/ faces' # faces \/ fprop' # fprop) => Authorised(ev'.c)]_vars
 RouteSet(s) == { [p |-> s[x].p, face |-> s[x].face, origin |-> s[x].origin, cost |-> s[x].cost, flags |-> s[x].flags, exp |-> s[x].exp] : x \in 1..Len(s) }
 \* ---- faces/query: the dataset lists exactly the faces the filter matches (q: [faceId, scheme, scope, uri, luri], -1 / "" = not given) ----
 Matches(f, q) == /\ (q.faceId >= 0 => q.faceId = f)
